@@ -373,6 +373,14 @@ func (this *BWT) inverseBiPSIv2(src, dst []byte, count int) (uint, uint, error) 
 		return 0, 0, errors.New("Invalid input: corrupted BWT primary index")
 	}
 
+	// The chunk tasks start from the other primary indexes: an out of range
+	// value would make them loop forever (or fault)
+	for i := 1; i < GetBWTChunks(count); i++ {
+		if int(this.PrimaryIndex(i)) > count {
+			return 0, 0, errors.New("Invalid input: corrupted BWT primary index")
+		}
+	}
+
 	freqs := [256]int{}
 	internal.ComputeHistogram(src[0:count], freqs[:], true, false)
 	buckets := make([]int, 65536)
